@@ -44,6 +44,9 @@ def run_U(chk, prefixes, rule1="U1", rule2="U2", floor1=40, floor2=10):
     run_U5(chk, prefixes)
     run_U6(chk, prefixes)
     run_U7(chk, prefixes)
+    run_U8(chk, prefixes)
+    run_U9(chk, prefixes)
+    run_U10(chk, prefixes)
     chk.rule(rule1, "every parameter is read by the function that declares it (nothing the caller supplies is silently ignored)", floor=floor1)
     chk.rule(rule2, "every name bound by unpacking a tuple is read", floor=floor2)
     for f in prog.all_funcs():
@@ -307,6 +310,156 @@ def run_U7(chk, prefixes, rule="U7"):
                             f"{f.short}(): with `{p_}` given, `{A.short(r, 40)}` can be reached without `{A.short(apps[0], 60)}`: the operand is returned "
                             f"without the transformation the caller asked for (e.g. a one-term linear combination add(a, amplitudes=[c]) returns a, "
                             f"not c*a -- the Krylov solvers produce exactly this call when the Krylov space has dimension 1)")
+
+
+# ------------------------------------------------------------------ U8 documented default == signature default
+U8_EXCEPTIONS = {
+    ("tn/mps/_initialize.py", "mps_from_tensor", "canonize"): "the docstring says 'first', the signature (and every caller and test) uses 'last': documentation slip of the pinned tree",
+}
+_U8_PATTERNS = (r"``([^`]+)``\s*\(the default\)", r"[Tt]he default is\s*``([^`]+)``", r"[Dd]efault is\s*``([^`]+)``", r"[Dd]efault:\s*``([^`]+)``")
+
+
+def _doc_defaults(doc):
+    """parameter -> literal text the numpydoc-style docstring states as its default (only the unambiguous double-backtick idioms)"""
+    import re
+    out = {}
+    cur = None
+    for line in doc.splitlines():
+        m = re.match(r"^\s*(\w+)\s*:\s*\S.*$", line)
+        if m and not line.strip().startswith(("..", ":")):
+            cur = m.group(1)
+            continue
+        if cur is None or not line.strip():
+            continue
+        for pat in _U8_PATTERNS:
+            mm = re.search(pat, line)
+            if mm:
+                out.setdefault(cur, mm.group(1))
+                break
+    return out
+
+
+def run_U8(chk, prefixes, rule="U8"):
+    """Stated belief vs code: where the docstring names the default of a parameter as a literal (``'last'`` (the default) / The default is
+    ``True``), the signature has that default.  One of the two is wrong otherwise -- and since callers rely on the documented
+    behaviour when they omit the argument, a changed default silently changes what they get (e.g. the sweep direction of truncate_)."""
+    prog = chk.prog
+    chk.rule(rule, "defaults named as literals in the docstring equal the defaults of the signature", floor=0)
+    for f in prog.all_funcs():
+        if not f.module.name.startswith(tuple(prefixes)) or "torch" in f.module.name:
+            continue
+        doc = ast.get_docstring(f.node)
+        if not doc or "efault" not in doc:
+            continue
+        a = f.node.args
+        pos = a.posonlyargs + a.args
+        dmap = dict(zip([x.arg for x in pos[len(pos) - len(a.defaults):]], a.defaults))
+        dmap.update({x.arg: d for x, d in zip(a.kwonlyargs, a.kw_defaults) if d is not None})
+        for p_, txt in _doc_defaults(doc).items():
+            if p_ not in dmap:
+                continue
+            try:
+                dv = ast.literal_eval(dmap[p_])
+                tv = ast.literal_eval(txt.strip())
+            except Exception:  # noqa: BLE001
+                continue
+            if tv == dv and type(tv) is type(dv) or (tv == dv and isinstance(tv, (int, float)) and isinstance(dv, (int, float)) and not isinstance(tv, bool) and not isinstance(dv, bool)):
+                chk.ok(rule, f, f"{f.short}({p_}={dv!r}) as documented", sample=False)
+                continue
+            why = next((w for (suf, fn_, nm), w in U8_EXCEPTIONS.items() if f.module.relpath.endswith(suf) and f.name == fn_ and nm == p_), None)
+            if why:
+                chk.note(f"{rule} named exception {f.short}({p_}): {why}")
+                continue
+            chk.bad(rule, f, f"{f.short}({p_}={dv!r})", f"{f.short}(): the docstring names ``{txt}`` as the default of `{p_}`, the signature has `{p_}={dv!r}`: callers who "
+                    f"omit the argument, relying on the documentation, get the other behaviour (no error, no warning)")
+
+
+# ------------------------------------------------------------------ U9 break that slipped out of its search loop
+_U9_FIXTURE = """
+def f(labels, tensors, info, out):
+    for u in labels:
+        if u in out:
+            for k in range(len(tensors)):
+                if (k, u) in info:
+                    out[u] = info[(k, u)]
+            break
+"""
+
+
+def _slipped_breaks(fn):
+    """`break` placed directly after an inner loop that itself contains no break: the shape left behind when the `break` of a search loop
+    (`for k ..: if found: store; break`) loses one level of indentation -- it now ends the *enclosing* loop after the first pass"""
+    out = []
+    for n in ast.walk(fn):
+        for fld in ("body", "orelse"):
+            blk = getattr(n, fld, None)
+            if not (isinstance(blk, list) and blk and isinstance(blk[0], ast.stmt)):
+                continue
+            for prev, st in zip(blk, blk[1:]):
+                if isinstance(st, ast.Break) and isinstance(prev, (ast.For, ast.While)) and not any(isinstance(x, ast.Break) for x in ast.walk(prev)) \
+                        and any(isinstance(x, ast.If) for x in ast.walk(prev)):
+                    out.append((prev, st))
+    return out
+
+
+def run_U9(chk, prefixes, rule="U9"):
+    prog = chk.prog
+    chk.rule(rule, "no `break` sits directly behind an inner search loop that has none (a break that slipped out of its loop ends the enclosing one)", floor=0)
+    fx = [n for n in ast.parse(_U9_FIXTURE).body if isinstance(n, ast.FunctionDef)][0]
+    if len(_slipped_breaks(fx)) != 1:
+        raise AnalysisError("U9: the built-in positive fixture is not recognised (rule broken)")
+    for f in prog.all_funcs():
+        if not f.module.name.startswith(tuple(prefixes)) or "torch" in f.module.name:
+            continue
+        if "break" not in A.text(f.node):
+            continue
+        hits = _slipped_breaks(f.node)
+        for lp, br in hits:
+            chk.bad(rule, (f, br), f"{f.short}: break after `{A.short(lp, 40)}`", f"{f.short}(): a `break` follows directly on the inner loop `{A.short(lp, 50)}`, which "
+                    f"searches (it tests and stores) but never breaks itself: the break ends the *enclosing* loop after its first pass, so only the first "
+                    f"item is processed (e.g. only the first unrolled output index is recorded) -- the usual result of a break losing one level of indentation")
+        if not hits:
+            chk.ok(rule, f, f"{f.short}: breaks sit in their loops", sample=False)
+
+
+# ------------------------------------------------------------------ U10 keyword swallowed by a named parameter
+def run_U10(chk, prefixes, rule="U10"):
+    """A function that reads an option from its `**kwargs` (`kwargs.get('which', ..)`, `kwargs['which']`, `'which' in kwargs`) must not also
+    declare a named parameter `which`: the named parameter captures the keyword, `kwargs` never contains it, and the lookup always yields
+    its default -- the caller's value is silently ignored."""
+    prog = chk.prog
+    chk.rule(rule, "no option is read from **kwargs under the name of a declared parameter (the parameter would swallow the keyword)", floor=0)
+    for f in prog.all_funcs():
+        if not f.module.name.startswith(tuple(prefixes)) or "torch" in f.module.name:
+            continue
+        a = f.node.args
+        if a.kwarg is None:
+            continue
+        kw = a.kwarg.arg
+        named = {x.arg for x in a.posonlyargs + a.args + a.kwonlyargs}
+        hits = []
+        # a bare `kwargs.pop('name', None)` statement whose value is discarded only makes sure the key is not forwarded: no value is read
+        discarded = {id(st.value) for st in ast.walk(f.node) if isinstance(st, ast.Expr) and isinstance(st.value, ast.Call)}
+        for n in ast.walk(f.node):
+            if id(n) in discarded:
+                continue
+            key = None
+            if isinstance(n, ast.Call) and isinstance(n.func, ast.Attribute) and n.func.attr in ("get", "pop", "setdefault") and isinstance(n.func.value, ast.Name) \
+                    and n.func.value.id == kw and n.args and isinstance(n.args[0], ast.Constant):
+                key = n.args[0].value
+            elif isinstance(n, ast.Subscript) and isinstance(n.value, ast.Name) and n.value.id == kw and isinstance(n.slice, ast.Constant):
+                key = n.slice.value
+            elif isinstance(n, ast.Compare) and len(n.ops) == 1 and isinstance(n.ops[0], (ast.In, ast.NotIn)) and isinstance(n.comparators[0], ast.Name) \
+                    and n.comparators[0].id == kw and isinstance(n.left, ast.Constant):
+                key = n.left.value
+            if isinstance(key, str) and key in named:
+                hits.append((n, key))
+        for n, key in hits[:1]:
+            chk.bad(rule, (f, n), f"{f.short}: `{A.short(n, 40)}`", f"{f.short}(): `{A.short(n, 40)}` looks `{key}` up in `**{kw}`, but `{key}` is a declared parameter of the "
+                    f"function: a caller's `{key}=..` binds the parameter, `{kw}` never holds it and the lookup returns its default -- the requested "
+                    f"`{key}` is ignored without any error")
+        if not hits:
+            chk.ok(rule, f, f"{f.short}: kwargs keys and parameters are disjoint", sample=False)
 
 
 # ------------------------------------------------------------------ U5 option-resolving self-delegation
